@@ -2,8 +2,8 @@
   Property C20 — the JUnit report agrees with the verdict.
   Only property theorems live here; helper lemmas are in FcProofs/Lemmas/{Cli,Junit}.lean.
 
-  Model:  `Fc.Cli.junitElement`, `fileReport`, `dirReport`   (FcModel/Junit.lean)
-  Spec:   `Fc.Cli.Spec.countsOk`, `agrees`, `reportOk`, `expectedSkipped`, `unbacked`  (FcModel/Spec/C20.lean)
+  Model:  `Fc.C04.junitElement`, `fileReport`, `dirReport`   (FcModel/Junit.lean)
+  Spec:   `Fc.C04.Spec.countsOk`, `agrees`, `reportOk`, `expectedSkipped`, `unbacked`  (FcModel/Spec/C20.lean)
 
   FULL STATEMENT (not provable for the unchanged implementation — finding F5):
 
@@ -20,7 +20,7 @@
 -/
 import FcProofs.Lemmas.Junit
 namespace Fc
-open Fc.Cli
+open Fc.C04
 
 /-- **C20 (counts).**  For every suite — any number of tests of any statuses, with or without an
     explicit status — the attributes `tests`, `failures`, `errors`, `skipped` of the written
